@@ -3,6 +3,7 @@ import Sx.Lemmas.Exec
 import Sx.Sys
 import Sx.Lemmas.ShadowSize
 import Sx.Lemmas.ShadowCbs
+import Sx.Lemmas.LoopBound
 import Sx.Props.C19
 /-
   C08 — memory safety for all air data, chip states and buffer sizes.
@@ -48,6 +49,23 @@ theorem C08_create_memory_safe (cap fuel : Nat) (h : Handle) :
   apply Prog.Safe_bind (s_create h)
   intro ⟨r, h'⟩ hi
   cases r <;> exact hi
+
+/-- **C08, bounded execution of the interrupt handler.** Its only loop — the byte-wise drain of
+    the FIFO — is bounded by the packet buffer and not by the chip: for every buffer size up to
+    65535 bytes (the byte counter is a `uint16_t`), every handle and every answer of chip and bus,
+    a FIFO that never reports "empty" included, one invocation with more loop fuel than the buffer
+    has bytes never exhausts it (`FuelBad` = the model's loop ran out of fuel).  The only other
+    loop of the driver, the calibration poll of `sx127x_fsk_ook_rx_calibrate`, waits for the chip
+    (`ImageCalRunning`) and is bounded by the chip alone. -/
+theorem C08_handler_loop_bounded (cap fuel : Nat) (hc16 : cap ≤ 65535) (hf : cap < fuel) (h : Handle)
+    (hh : h.packet.length = cap) : (Api.prog cap fuel .irq h).Safe FuelBad (fun _ => True) (LI cap) := by
+  unfold Api.prog
+  exact (SafeI_bind (SafeI_attempt (l_irq hc16 fuel hf)) (fun _ => SafeI_pure _)).s h hh
+
+/-- non-vacuity: with no fuel at all the loop does run out (the bound is needed), and the
+    interpreter's fuel exceeds every documented buffer size -/
+example : ¬ (drainLoop 0 ({ packet := [0] } : Handle)).Safe FuelBad (fun _ => True) (LI 1) := fun h => h rfl
+example : (2047 : Nat) < execFuel := by decide
 
 /-! ### from programs to executions -/
 
